@@ -99,6 +99,7 @@ def run(ctx):
     c10_1b(ctx)
     c10_finalize_limit(ctx)
     c10_estimate_units(ctx)
+    c10_accumulator(ctx)
 
 
 def _rejected_returns(b):
@@ -426,3 +427,52 @@ def c10_estimate_units(ctx):
         ok = len(steps) == 1 and steps[0].startswith(want) and steps[0].endswith("('.cost_per_byte', 'self')))))")
         ctx.ob(R, "interned:estimate-step", ok, "per spend the byte-cost estimate grows by spend_vbytes(spend) * cost_per_byte, nothing else",
                found=[x[:200] for x in steps], where=fi.sp)
+
+
+def c10_accumulator(ctx):
+    """'the finalized generator decodes to exactly the spends of the accepted attempts': within one add attempt every spend of
+    every bundle of the batch is prepended to ONE running list -- `spend_list = cons(item, spend_list)` -- that starts from the
+    builder's committed list (interned: self.spend_list, compressed: the sentinel the serializer resumes from) and is what gets
+    committed (interned: self.spend_list = spend_list; compressed: ser.add(spend_list)).  A per-bundle accumulator restarted from
+    the committed list keeps only the last bundle of a multi-bundle batch."""
+    from .. import apnf
+    R = "C10.2"
+    fb = ctx.fb
+    for nm, path, init, commit in (("compressed", CB + "::add_spend_bundles", "('.sentinel', 'self')", "ser.add"),
+                                   ("interned", IB + "::add_spend_bundles", "('.spend_list', 'self')", "field")):
+        f = _find(fb, path)
+        if not f:
+            ctx.missing(R, "accumulator:" + nm, "add_spend_bundles not found")
+            continue
+        b = Body(f, fb)
+        ls = b.local_named("spend_list")
+        ok = len(ls) == 1
+        detail = None
+        if ok:
+            defs_ = []
+            for d in b.defs().get(ls[0], []):
+                t = str(apnf.N(b.rvalue_term(d[3]["rv"]))) if d[0] == "s" else str(apnf.N(b.call_term(d[3])))
+                defs_.append((b.in_cycle(d[1]), t))
+            inits = [t for cyc, t in defs_ if not cyc]
+            steps = [t for cyc, t in defs_ if cyc]
+            ok = inits == [init] and len(steps) == 1 and steps[0].startswith("('Allocator::new_pair', ('.allocator', 'self'), ('Allocator::new_pair', ") \
+                and steps[0].endswith(", 'var:spend_list')")
+            detail = {"init": inits, "step-tail": [x[-30:] for x in steps]}
+            # no other accumulator: every in-cycle cons whose tail is not a freshly built item list ends in var:spend_list
+            conses = [[str(apnf.N(b.operand_term(a))) for a in t["args"]] for bi, n, t in b.calls() if U.flat(n).endswith("Allocator::new_pair") and b.in_cycle(bi)]
+            outer = [c for c in conses if c[1].startswith("('Allocator::new_pair', ('.allocator', 'self'), ('Allocator::new_atom', ")]
+            ok = ok and len(outer) == 1 and outer[0][2] == "var:spend_list"
+            if commit == "field":
+                commits = []
+                for bi, blk in enumerate(b.blocks):
+                    if bi not in b.reach:
+                        continue
+                    for st in blk["s"]:
+                        if st["k"] == "assign" and st["pl"].get("p") and isinstance(st["pl"]["p"][-1], dict) and st["pl"]["p"][-1].get("n") == "spend_list":
+                            commits.append(str(apnf.N(b.rvalue_term(st["rv"]))))
+                ok = ok and commits == ["var:spend_list"]
+            else:
+                adds = [[str(apnf.N(b.operand_term(a))) for a in t["args"]] for bi, n, t in b.calls() if U.flat(n).endswith("Serializer::add")]
+                ok = ok and len(adds) == 1 and adds[0][2] == "var:spend_list"
+        ctx.ob(R, "accumulator:" + nm, ok, "%s builder: one running list per attempt, `spend_list = cons(item, spend_list)` from the committed list, committed as a whole" % nm,
+               found=detail, where=f.sp)
